@@ -77,6 +77,9 @@ static int split_fields(char *line, char **fv, int max)
     return n;
 }
 
+#ifndef H_OUTPUT_LIMIT
+#define H_OUTPUT_LIMIT ((size_t)16 << 20)
+#endif
 static int h_watchdog = 20; /* seconds per case */
 static int h_nofork = 0;
 
@@ -118,18 +121,39 @@ static int h_main(int argc, char **argv)
             fflush(stdout);
         } else {
             pid_t pid;
-            int st = 0;
+            int st = 0, relay[2], runaway = 0;
+            size_t relayed = 0;
             fflush(stdout);
+            if (pipe(relay)) { perror("pipe"); return 2; }
             pid = fork();
             if (pid < 0) { perror("fork"); return 2; }
             if (pid == 0) {
+                close(relay[0]);
+                dup2(relay[1], 1);
+                close(relay[1]);
                 alarm((unsigned)h_watchdog);
                 run_case(lines + i, (int)(j - i));
                 fflush(stdout);
                 _exit(0);
             }
+            close(relay[1]);
+            /* relay the child's records; a case that writes without end (an iteration over a
+             * corrupted list, say) is stopped instead of filling the memory of whoever reads us */
+            for (;;) {
+                static char rb[1 << 16];
+                ssize_t r = read(relay[0], rb, sizeof(rb));
+                if (r < 0 && errno == EINTR) continue;
+                if (r <= 0) break;
+                relayed += (size_t)r;
+                if (relayed > H_OUTPUT_LIMIT) { runaway = 1; kill(pid, SIGKILL); break; }
+                if (fwrite(rb, 1, (size_t)r, stdout) != (size_t)r) break;
+            }
+            close(relay[0]);
+            fflush(stdout);
             while (waitpid(pid, &st, 0) < 0 && errno == EINTR) {}
-            if (WIFSIGNALED(st))
+            if (runaway)
+                printf("\nfault output-limit (more than %lu bytes of records from one case: runaway loop)\n", (unsigned long)H_OUTPUT_LIMIT);
+            else if (WIFSIGNALED(st))
                 printf("fault signal %d%s\n", WTERMSIG(st), WTERMSIG(st) == SIGALRM ? " (watchdog: hang)" : "");
             else if (WIFEXITED(st) && WEXITSTATUS(st) != 0)
                 printf("fault exit %d\n", WEXITSTATUS(st));
